@@ -162,6 +162,7 @@ def run_case(inp):
     m = inp["m"]
     nun = sum(1 for r in m for b in r if not b)
     prm = PARAMS[op](rng, m, ps) if op in PARAMS else {}
+    SHARED.clear()
     a = OPS[op](aa, m, ps, o, (F(0), F(0)), prm)          # at origin o: arguments that are coordinates get + 0
     b = OPS[op](aa, m, ps, o2, d, prm)                    # at origin o + d: coordinate arguments get + d
     if a is None or b is None:
@@ -264,12 +265,23 @@ def op_subtracted(aa, m, ps, o, dd, prm):
     return {"coq": [kgrid(f"(GSubtracted {cpt(off)})", m, ps, o, g), f"(KGeom (MSubtracted {cpt(off)}) {cM(m, ps, o)} (Some {cgeom(ge)}))"],
             "rel": [("grid", g), ("geom", ge)], "show": jg(g[:4])}
 
+SHARED = {}     # configuration objects shared by the run at origin o and the run at o + d of ONE case (reset per case)
 def op_over(entry):
     def f(aa, m, ps, o, dd, prm):
         mask = mk_mask(aa, m, ps, o)
         subs = prm["subs"]
         ss = subs[0] if prm["uniform"] else aa.Array2D(values=np.array(subs, dtype=int), mask=mask)
-        if entry == "over": g = grid_out(aa.OverSamplerUniform(mask=mask, sub_size=ss).over_sampled_grid)
+        if entry == "over":
+            g = grid_out(aa.OverSamplerUniform(mask=mask, sub_size=ss).over_sampled_grid)
+            if prm["uniform"]:
+                # the same OverSamplingUniform object configures the grid at o and the grid at o + d: the over sampler each grid
+                # reports must be the one of its own mask
+                osu = SHARED.setdefault("osu", aa.OverSamplingUniform(sub_size=int(subs[0])))
+                g2 = grid_out(aa.Grid2D.from_mask(mask=mask, over_sampling=osu).over_sampler.over_sampled_grid)
+                g3 = grid_out(osu.over_sampler_from(mask=mask).over_sampled_grid)
+                if g2 != g or g3 != g:
+                    return {"coq": [kgrid(f"(GOver {clist([cz(s) for s in subs])})", m, ps, o, g2 if g2 != g else g3)],
+                            "rel": [("grid", g2 if g2 != g else g3)], "show": "shared OverSamplingUniform: " + jg((g2 if g2 != g else g3)[:4])}
         else: g = grid_out(aa.BorderRelocator(mask=mask, sub_size=ss).sub_grid)
         return {"coq": [kgrid(f"(GOver {clist([cz(s) for s in subs])})", m, ps, o, g)], "rel": [("grid", g)], "show": jg(g[:4])}
     return f
@@ -461,8 +473,9 @@ def op_ds(which):
                 coq, rel, gd = ds_result(ds, "DNoiseScaling", D, D, cM(m, ps, o))
             elif which == "over_sampling":
                 ds1 = ds0.apply_mask(mask=mask)
-                ds = ds1.apply_over_sampling(aa.OverSamplingDataset(uniform=aa.OverSamplingUniform(sub_size=prm["sub"]),
-                                                                    pixelization=aa.OverSamplingUniform(sub_size=2)))
+                osd = SHARED.setdefault("osd", aa.OverSamplingDataset(uniform=aa.OverSamplingUniform(sub_size=prm["sub"]),
+                                                                      pixelization=aa.OverSamplingUniform(sub_size=2)))
+                ds = ds1.apply_over_sampling(osd)
                 coq, rel, gd = ds_result(ds, f"(DApplyMask {cmask(m)})", D, D, cM(m, ps, o))
                 og = grid_out(ds.grids.uniform.over_sampler.over_sampled_grid)
                 nun = sum(1 for r in m for b in r if not b)
